@@ -335,7 +335,8 @@ void FFIManager::processForeignModule(const ASTNode *node) {
         sig.return_type = func_decl.return_type;
 
         for (const auto &param : func_decl.parameters) {
-            sig.parameters.push_back({param.type, param.name});
+            sig.parameters.push_back(
+                {param.is_pointer ? TYPE_POINTER : param.type, param.name});
         }
 
         if (!registerFunction(module_name, func_decl.function_name, sig)) {
